@@ -17,6 +17,30 @@ var e14 = []string{"(*Schema).AddType", "(*Schema).RemoveType", "(*Schema).AddAt
 func checkC14(p *Prog, r *Report) {
 	r.rule("C14.two-way-lookups: in AddTwoWayRel each end's type is taken from the schema under that end's own name test and no other test inside the lookup loop")
 	checkTwoWayLookupsIndependent(p, r)
+	r.rule("C14.normalize.* (imported from C16): Rel.Normalize returns only the receiver or receiver.Invert(), and Invert is a field permutation that is its own inverse - so the pair AddTwoWayRel stores is the relationship it was given and its inverse")
+	nImp := r.importRules(func(r2 *Report) { checkC16(p, r2) }, "C14.normalize", "C16.normalize-shape", "C16.involution", "C16.normalize-oneway")
+	r.floor("imported Normalize/Invert obligations", nImp, 4)
+	r.rule("C14.remove-splices-only: RemoveType, RemoveAttr and RemoveRel never overwrite an element of Schema.Types: a type leaves the list only through the splice")
+	for _, name := range []string{"(*Schema).RemoveType", "(*Schema).RemoveAttr", "(*Schema).RemoveRel"} {
+		g := p.Fn(name)
+		if g == nil {
+			r.fail("anchor %s not found", name)
+			continue
+		}
+		bad := ""
+		eachInstr(g, func(ins ssa.Instruction) {
+			st, ok := ins.(*ssa.Store)
+			if !ok {
+				return
+			}
+			if ia, ok := st.Addr.(*ssa.IndexAddr); ok {
+				if _, fl, ok := fieldLoad(ia.X); ok && fl == "Types" {
+					bad = p.describe(st) + " (" + p.pos(st.Pos()) + ")"
+				}
+			}
+		})
+		r.decide(bad == "", "C14.remove-splices-only", name+":no-element-overwrite", p.pos(g.Pos()), "no element of Types is overwritten", name+" overwrites an element of Schema.Types ("+bad+"): a type other than the one being removed can be lost or emptied")
+	}
 	r.rule("C14.type-lookup: Schema.GetType / HasType find a type by one exact equality test between a type's Name and the requested name and call nothing else (the comparison AddType uses to keep names unique)")
 	checkTypeLookup(p, r, "C14")
 	r.rule(r3RuleText)
